@@ -1,1 +1,320 @@
-fn main() { unimplemented!() }
+//! C16 — stream sockets: bytes intact, waits / time-outs / try-variants as specified,
+//! descriptor passing exact and inside the supplied buffer.
+//!
+//! phases:
+//!   model        fault/answer enumeration of the real net.rs / sock.rs code against an
+//!                in-process model kernel over the syscall seam (exhaustive within a
+//!                deviation budget, every peer interleaving)
+//!   cmsg         exhaustive small-domain enumeration of SCM_RIGHTS cases on the REAL kernel
+//!   conformance  every kind of answer of the model kernel witnessed on the REAL kernel
+//!   bulk         SAMPLED: one real 8 MiB transfer per stream type
+
+mod bulk;
+mod cmsg;
+mod conform;
+mod model;
+mod scen;
+
+use common::*;
+use model::{Fam, Menu};
+use scen::{Case, PeerMode, Scen};
+use serde_json::{json, Value};
+use std::collections::VecDeque;
+
+fn main() {
+    let args = parse_args();
+    install_panic_hook();
+    if let Some(p) = &args.replay {
+        let v = read_replay(p);
+        let mut r = Report::new();
+        replay(&v, &mut r);
+        for v in r.violations.values() {
+            println!("VIOLATED {}: {}", v.key, v.desc);
+        }
+        if r.violations.is_empty() {
+            println!("no violation in this replay");
+        }
+        std::process::exit(if r.violations.is_empty() { 0 } else { 1 });
+    }
+    let phase = args.phase.clone().unwrap_or_else(|| "model".into());
+    let r = match phase.as_str() {
+        "model" => model_phase(&args),
+        "cmsg" => cmsg::phase(&args),
+        "conformance" => conform::phase(&args),
+        "bulk" => bulk::phase(&args),
+        _ => panic!("unknown phase {phase}"),
+    };
+    r.write(&args.out);
+}
+
+// ---------------------------------------------------------------------------
+// model phase
+
+struct Grid {
+    max_len: usize,
+    caps: Vec<usize>,
+    budget: u32,
+    timeouts: Vec<u64>,
+}
+
+fn grid(thorough: bool) -> Grid {
+    if thorough {
+        Grid { max_len: 5, caps: vec![1, 2, 3, 4, 8, 16], budget: 3, timeouts: vec![0, 1, 999_999_999, 1_000_000_000, 1_500_000_000, 86_400_000_000_000] }
+    } else {
+        Grid { max_len: 3, caps: vec![1, 2, 4, 16], budget: 2, timeouts: vec![0, 1, 1_500_000_000] }
+    }
+}
+
+fn cases(g: &Grid) -> Vec<Case> {
+    let mut v = Vec::new();
+    let fams = [Fam::Unix, Fam::Tcp];
+    // simplest first: payload length is the outer loop of the data scenarios
+    // --- connection set-up / tear-down orders (no payload)
+    for &fam in &fams {
+        for (scen, peers) in [
+            (Scen::Accept, &[PeerMode::Ready][..]),
+            (Scen::TryAccept, &[PeerMode::Ready, PeerMode::Absent][..]),
+        ] {
+            for &peer in peers {
+                v.push(Case { scen, fam, len: 0, cap: 4, mode: 0, timeout: None, peer });
+            }
+        }
+        for &t in &g.timeouts {
+            for peer in [PeerMode::Ready, PeerMode::Absent] {
+                v.push(Case { scen: Scen::AcceptTimeout, fam, len: 0, cap: 4, mode: 0, timeout: Some(t), peer });
+            }
+        }
+        for peer in [PeerMode::Ready, PeerMode::Late, PeerMode::Absent] {
+            v.push(Case { scen: Scen::Connect, fam, len: 0, cap: 4, mode: 0, timeout: None, peer });
+            v.push(Case { scen: Scen::TryConnect, fam, len: 0, cap: 4, mode: 0, timeout: None, peer });
+        }
+    }
+    v.push(Case { scen: Scen::TryConnect, fam: Fam::Tcp, len: 0, cap: 4, mode: 0, timeout: None, peer: PeerMode::Blackhole });
+    for &t in &g.timeouts {
+        for peer in [PeerMode::Ready, PeerMode::Late, PeerMode::Absent, PeerMode::Blackhole] {
+            v.push(Case { scen: Scen::ConnectTimeout, fam: Fam::Tcp, len: 0, cap: 4, mode: 0, timeout: Some(t), peer });
+        }
+    }
+    for peer in [PeerMode::Ready, PeerMode::Late, PeerMode::Absent, PeerMode::Blackhole] {
+        v.push(Case { scen: Scen::InProgTry, fam: Fam::Tcp, len: 0, cap: 4, mode: 0, timeout: None, peer });
+    }
+    for peer in [PeerMode::Ready, PeerMode::Late, PeerMode::Absent] {
+        v.push(Case { scen: Scen::InProgBlocking, fam: Fam::Tcp, len: 0, cap: 4, mode: 0, timeout: None, peer });
+    }
+    // --- data
+    for len in 0..=g.max_len {
+        for &fam in &fams {
+            for &cap in &g.caps {
+                // capacities far above the payload behave like the largest one that is not
+                if cap > len.max(1) * 4 && cap != g.caps[g.caps.len() - 1] {
+                    continue;
+                }
+                let mut wmodes = vec![0usize, 1];
+                if len >= 3 {
+                    wmodes.push(2);
+                }
+                for mode in wmodes {
+                    v.push(Case { scen: Scen::Write, fam, len, cap, mode, timeout: None, peer: PeerMode::Ready });
+                }
+                let mut rmodes = vec![0usize, 1, 2];
+                if len >= 2 {
+                    rmodes.push(3);
+                }
+                if len >= 1 && len + 2 > 3 {
+                    rmodes.push(len + 2);
+                }
+                for mode in rmodes {
+                    v.push(Case { scen: Scen::Read, fam, len, cap, mode, timeout: None, peer: PeerMode::Ready });
+                }
+            }
+        }
+        if len <= 2 {
+            for &cap in &[1usize, 4] {
+                for &t in &g.timeouts {
+                    for mode in [2usize, 3] {
+                        v.push(Case { scen: Scen::ReadTimeout, fam: Fam::Tcp, len, cap, mode, timeout: Some(t), peer: PeerMode::Ready });
+                    }
+                    if len == 0 && cap == 1 {
+                        v.push(Case { scen: Scen::ReadTimeout, fam: Fam::Tcp, len, cap, mode: 2, timeout: Some(t), peer: PeerMode::Absent });
+                    }
+                }
+            }
+        }
+    }
+    v
+}
+
+fn spent(trace: &[model::Pt], upto: usize) -> u32 {
+    trace[..upto].iter().map(|p| ((p.mask >> p.chosen) & 1) as u32).sum()
+}
+
+fn replay_json(case: &Case, choices: &[u8]) -> Value {
+    json!({"phase": "model", "op": case.op(), "case": case.to_json(), "choices": choices})
+}
+
+/// All executions of one case: run the default script, then branch on every later
+/// choice point within the deviation budget (breadth-first: fewest choices first).
+fn explore(case: &Case, budget: u32, menu: Menu, max_execs: u64, r: &mut Report) {
+    let mut queue: VecDeque<Vec<u8>> = VecDeque::new();
+    queue.push_back(Vec::new());
+    let mut n = 0u64;
+    let case_txt = case.to_json().to_string();
+    let op = case.op();
+    let mut line = String::with_capacity(256);
+    while let Some(prefix) = queue.pop_front() {
+        if n >= max_execs {
+            r.cap(format!("case {case_txt}: more than {max_execs} executions, {} prefixes not explored", queue.len() + 1));
+            break;
+        }
+        n += 1;
+        {
+            use std::fmt::Write;
+            line.clear();
+            let _ = write!(line, "{{\"phase\":\"model\",\"op\":\"{op}\",\"case\":{case_txt},\"choices\":{prefix:?}}}");
+        }
+        set_case(&line);
+        let ex = scen::run_exec(case, &prefix, menu);
+        clear_case();
+        r.eval();
+        r.nontrivial_unique();
+        r.outcome(&ex.outcome);
+        r.transitions += ex.ncalls as u64;
+        if let Some(m) = &ex.machinery {
+            if r.notes.len() < 5 {
+                r.note(format!("machinery: {m} in case {case_txt} choices {prefix:?}"));
+            }
+            r.cap("an execution left the model (see notes)".to_string());
+        }
+        for (k, d) in &ex.viol {
+            let choices: Vec<u8> = ex.trace.iter().map(|p| p.chosen).collect();
+            let cut = choices.iter().rposition(|&c| c != 0).map(|i| i + 1).unwrap_or(0);
+            r.violation(k, format!("{d} [case {case_txt}, choices {:?}]", &choices[..cut]), replay_json(case, &choices[..cut]));
+        }
+        if n == 1 && r.samples.len() < 3 {
+            r.sample(json!({"case": case.to_json(), "choices": [], "outcome": ex.outcome,
+                "events": ex.events.iter().map(model::show_ev).collect::<Vec<_>>()}));
+        }
+        // children
+        let base = prefix.len();
+        let mut sp = spent(&ex.trace, base.min(ex.trace.len()));
+        for i in base..ex.trace.len() {
+            let pt = ex.trace[i];
+            for a in 1..pt.n {
+                let cost = ((pt.mask >> a) & 1) as u32;
+                if sp + cost <= budget {
+                    let mut child: Vec<u8> = Vec::with_capacity(i + 1);
+                    child.extend(ex.trace[..i].iter().map(|p| p.chosen));
+                    child.push(a);
+                    queue.push_back(child);
+                }
+            }
+            sp += ((pt.mask >> pt.chosen) & 1) as u32;
+        }
+    }
+}
+
+fn menu_from(conf: &Report) -> (Menu, Vec<String>) {
+    let mut m = Menu::all();
+    let mut off = Vec::new();
+    let mut get = |k: &str| -> bool {
+        let ok = conf.bounds.get(&format!("witnessed.{k}")).and_then(|v| v.as_bool()).unwrap_or(false);
+        if !ok {
+            off.push(k.to_string());
+        }
+        ok
+    };
+    m.short_read = get("read-short");
+    m.short_write = get("write-short");
+    m.ppoll_eintr = get("ppoll-eintr");
+    m.ppoll_timeout = get("ppoll-timeout");
+    m.eintr_writeback = get("ppoll-eintr-writeback");
+    m.unix_connect_eagain = get("unix-connect-eagain-then-ok");
+    m.tcp_einprogress = get("tcp-connect-einprogress-then-0");
+    m.tcp_ealready = get("tcp-connect-ealready");
+    m.tcp_refused = get("tcp-connect-refused");
+    (m, off)
+}
+
+fn model_phase(args: &Args) -> Report {
+    let g = grid(args.thorough);
+    // the model's menu is what the real kernel reproduces right now
+    let conf = conform::run(&format!("{}.conf", args.out));
+    let (menu, off) = menu_from(&conf);
+    let all = cases(&g);
+    let budget = g.budget;
+    let max_execs: u64 = if args.thorough { 40_000_000 } else { 6_000_000 };
+    let mut items = Vec::new();
+    for (i, case) in all.iter().cloned().enumerate() {
+        // scenarios whose model answers were not witnessed are left out
+        if case.fam == Fam::Tcp && !menu.tcp_einprogress && !matches!(case.scen, Scen::Accept | Scen::TryAccept | Scen::AcceptTimeout) {
+            continue;
+        }
+        if !menu.tcp_ealready && matches!(case.scen, Scen::InProgTry | Scen::InProgBlocking) {
+            continue;
+        }
+        if !menu.tcp_refused && case.fam == Fam::Tcp && matches!(case.peer, PeerMode::Late | PeerMode::Absent) && !matches!(case.scen, Scen::Accept | Scen::TryAccept | Scen::AcceptTimeout | Scen::ReadTimeout) {
+            continue;
+        }
+        items.push(isolated(format!("case-{i}"), move || {
+            let mut r = Report::new();
+            explore(&case, budget, menu, max_execs, &mut r);
+            r
+        }));
+    }
+    let n_cases = items.len();
+    let mut r = run_isolated(items, &args.out, "C16");
+    r.traces_validated += conf.traces_validated;
+    for k in off {
+        r.note(format!("answer kind '{k}' was not reproduced on the real kernel in this run: removed from the model's menu"));
+    }
+    r.rule = format!(
+        "fault/answer enumeration against an in-process model kernel (Syscall User Dispatch seam): the real tiny-std UnixStream/TcpStream/UnixListener/TcpListener/\
+         TcpStreamInProgress code runs one scenario (write_all or chunked write, read_to_end/read_exact/read loop, read_with_timeout, accept/try_accept/accept_with_timeout, \
+         connect/try_connect/connect_with_timeout/connect_blocking) against bounded FIFOs of capacity {:?}, payload lengths 0..={}, time-outs {:?} ns and a scripted peer. \
+         One evaluation = one execution, identified by its choice list: at every intercepted call every peer action possible in that state may happen before the call \
+         (free choices: every order of the peer's listen/handshake/connect/write k/read k/close relative to the application's calls is generated), and the answer is \
+         either the default (most progress the state allows; EAGAIN when full/empty is forced) or a deviation (any smaller count >= 1, ppoll EINTR, ppoll time-out although \
+         the peer could still act, unix connect EAGAIN once) with at most {} deviations per execution. Every choice list is generated exactly once (prefix + defaults + branch \
+         on later points); an execution is non-trivial by construction (it runs the operation under test to completion).",
+        g.caps, g.max_len, g.timeouts, budget
+    );
+    r.bound("deviation_budget", budget);
+    r.bound("max_payload", g.max_len);
+    r.bound("capacities", json!(g.caps));
+    r.bound("timeouts_ns", json!(g.timeouts));
+    r.bound("cases", n_cases);
+    r.bound("call_horizon", model::HORIZON);
+    r
+}
+
+// ---------------------------------------------------------------------------
+
+fn replay(v: &Value, r: &mut Report) {
+    match v["phase"].as_str().unwrap_or("") {
+        "model" => {
+            let Some(case) = Case::from_json(&v["case"]) else {
+                println!("bad case in replay file");
+                return;
+            };
+            let choices: Vec<u8> = v["choices"].as_array().map(|a| a.iter().filter_map(|x| x.as_u64()).map(|x| x as u8).collect()).unwrap_or_default();
+            println!("replaying model execution: {} case {} choices {:?}", case.op(), case.to_json(), choices);
+            let ex = scen::run_exec(&case, &choices, Menu::all());
+            for e in &ex.events {
+                println!("  {}", model::show_ev(e));
+            }
+            println!("choice points: {:?}", ex.trace.iter().map(|p| format!("{}/{}", p.chosen, p.n)).collect::<Vec<_>>());
+            println!("outcome: {}", ex.outcome);
+            if let Some(m) = ex.machinery {
+                println!("machinery: {m}");
+            }
+            for (k, d) in ex.viol {
+                r.violation(&k, d, v.clone());
+            }
+        }
+        "cmsg" => cmsg::replay(v, r),
+        "conformance" | "bulk" => {
+            println!("phase {} has no per-case replay: re-run the phase", v["phase"]);
+        }
+        other => println!("unknown replay phase {other:?}"),
+    }
+}
